@@ -202,6 +202,15 @@ Definition select_from_args (noout csv_stdout snapshot : bool) (k : outkind) : w
   if (noout || csv_stdout)%bool then WNull else select_writer k snapshot.        (* BuildVTermFromArguments *)
 Definition color_default (k : outkind) : bool := negb (is_piped_output k).       (* color.Enabled after init *)
 
+(* pkg/multiterm/linetrim.go init(): AutoTrim and the width a process starts with.  A terminal
+   (whose size the tty driver reports: win_cols) trims at that width; everything else does not
+   trim and uses the fall-back width.  The environment (COLUMNS, LINES) is not consulted by the
+   pinned code anywhere on this path — the parameter is there so that this is a statement.
+   (A terminal whose size cannot be read falls back like a non-terminal; not modelled.) *)
+Record env := mkenv { e_columns : option text; e_lines : option text }.
+Definition default_cfg (k : outkind) (win_cols : Z) (e : env) : cfg :=
+  if is_terminal k then mkcfg true win_cols else mkcfg false DefaultCols.
+
 (* what reaches standard output when a command obtains its writer this way, writes the history
    and closes (NullTerm prints nothing) *)
 Definition session_output (c : cfg) (w : writer) (ups : list (nat * text)) : Res.result text :=
